@@ -5,6 +5,7 @@ package main
 import (
 	"bufio"
 	"fmt"
+	"os"
 	"sort"
 	"strconv"
 	"strings"
@@ -215,6 +216,7 @@ type c12Script struct {
 
 	stepDeadline time.Time
 	expired      bool // some wait of this case ran into its deadline
+	alone        bool // the re-run in isolation: full patience whatever happened elsewhere
 }
 
 // closedByClient is set by Close on the client end (the harness never closes that end itself).
@@ -290,6 +292,12 @@ func (s *c12Script) waitCond(f func() bool) bool {
 // left is the time left for the waits of the current step.
 func (s *c12Script) left() time.Duration {
 	d := time.Until(s.stepDeadline)
+	if (s.expired || (!s.alone && atomic.LoadInt32(&c12Hangs) > 0)) && d > 500*time.Millisecond {
+		// the case already counts as expired (it is re-run alone / reported as a hang): the waits
+		// that follow in it need no patience; likewise once a hang has been confirmed in isolation
+		// (the verdict is settled, the remaining cases are skipped)
+		d = 500 * time.Millisecond
+	}
 	if d < 50*time.Millisecond {
 		d = 50 * time.Millisecond
 	}
@@ -829,8 +837,9 @@ func (s *c12Script) close() {
 	s.waitChan(done)
 }
 
-func c12Run(evs []string) (caseLine, bool) {
+func c12Run(evs []string, alone bool) (caseLine, bool) {
 	s := newC12Script()
+	s.alone = alone
 	defer s.close()
 	var obs []string
 	for _, ev := range evs {
@@ -839,20 +848,27 @@ func c12Run(evs []string) (caseLine, bool) {
 	return caseLine{kind: "tr", fields: []string{strings.Join(evs, ";"), strings.Join(obs, ";")}}, s.expired
 }
 
+var c12Skipped = caseLine{kind: "skipped", fields: []string{"after-confirmed-hang"}, counts: []string{"skipped:after-confirmed-hang"}}
+
 // c12RunChecked runs a case next to the others; if some wait expired, the case is run once more
 // with nothing else running, and that second observation is the one that counts.
 func c12RunChecked(evs []string) caseLine {
 	c12Isolation.RLock()
-	l, expired := c12Run(evs)
+	l, expired := c12Run(evs, false)
 	c12Isolation.RUnlock()
 	if !expired {
 		return l
 	}
+	if atomic.LoadInt32(&c12Hangs) > 0 {
+		// cut short because the verdict is settled: this observation says nothing
+		return c12Skipped
+	}
 	c12Isolation.Lock()
-	l, expired = c12Run(evs)
+	l, expired = c12Run(evs, true)
 	c12Isolation.Unlock()
 	if expired {
 		atomic.AddInt32(&c12Hangs, 1)
+		fmt.Fprintln(os.Stderr, "c12: a wait expired again with the case running alone:", strings.Join(evs, ";"))
 	}
 	return l
 }
@@ -897,15 +913,17 @@ func genC12(e *emitter, tier string, seed uint64) {
 		seeds[i] = base.next()
 	}
 	parCases(e, n, func(i int) []caseLine {
-		// after a few confirmed hangs the verdict is settled (each is a failing case with a
+		// after a hang confirmed in isolation the verdict is settled (it is a failing case with a
 		// replay); waiting 2 x 30 s for every further one would only make the run endless
-		if atomic.LoadInt32(&c12Hangs) >= 3 {
-			return []caseLine{{kind: "skipped", fields: []string{"after-confirmed-hangs"}, counts: []string{"skipped:after-confirmed-hangs"}}}
+		if atomic.LoadInt32(&c12Hangs) >= 1 {
+			return []caseLine{c12Skipped}
 		}
 		r := &rng{s: seeds[i]}
 		evs, counts := c12Gen(r)
 		l := c12RunChecked(evs)
-		l.counts = counts
+		if l.kind != "skipped" {
+			l.counts = counts
+		}
 		return []caseLine{l}
 	})
 }
